@@ -74,6 +74,7 @@ type Result struct {
 	LogFPs     []uint64         `json:"log_fps"`
 	Violations []FoundViolation `json:"violations"`
 	Other      map[string]int   `json:"other_props"`
+	OtherFirst map[string]string `json:"other_first,omitempty"`
 	Samples    []any            `json:"samples"`
 	Retire     bool             `json:"retire"`
 	TLSReal    int              `json:"tls_real"`
